@@ -29,11 +29,17 @@ def _serialize_ds9(regions, precision=8):
         if isinstance(region, (CompoundPixelRegion, CompoundSkyRegion)):
             warnings.warn('Cannot serialize a compound region, skipping',
                           AstropyUserWarning)
+            continue
 
         if isinstance(region, RegularPolygonPixelRegion):
             region = region.to_polygon()
 
-        region_data.append(_serialize_region_ds9(region, precision=precision))
+        data = _serialize_region_ds9(region, precision=precision)
+        if data is not None:  # skip regions that cannot be serialized
+            region_data.append(data)
+
+    if not region_data:
+        return ''
 
     # ds9 file header
     output = '# Region file format: DS9 astropy/regions\n'
@@ -136,6 +142,7 @@ def _get_frame_name(region, mapping):
     if frame not in mapping:
         warnings.warn(f'Cannot serialize region with frame={frame}, skipping',
                       AstropyUserWarning)
+        return None
 
     return mapping[frame]
 
@@ -213,11 +220,14 @@ def _get_region_params(region, shape_template, precision=8):
 def _serialize_region_ds9(region, precision=8):
     frame_mapping = {v: k for k, v in ds9_frame_map.items()}
     frame = _get_frame_name(region, mapping=frame_mapping)
+    if frame is None:
+        return None
 
     shape = _get_region_shape(region)
     if shape not in ds9_shape_templates:
         warnings.warn(f'Cannot serialize region shape "{shape}", '
                       'skipping', AstropyUserWarning)
+        return None
 
     region_params = _get_region_params(region,
                                        ds9_shape_templates[shape],
